@@ -179,7 +179,32 @@ def rule_glob_anchored(ctx, rep):
                   f"user pattern becomes regex `{unparse(x)[:60]}` applied with .{use}(): "
                   + ", ".join(w for w, c in (("metacharacters not escaped", not escaped), ("not matched in full", not full)) if c)
                   + " (e.g. `*sql` also selects `.../sql-parameterization`)")
-    if n_sites < 2:
+    # predicates over codemod ids that are not one of the recognised matchers
+    recognised_lines = set()
+    for n in walk_no_nested(fn.node):
+        if isinstance(n, ast.Call) and (
+            (isinstance(n.func, ast.Attribute) and n.func.attr in ("match", "search", "fullmatch")) or (r.callee_qname(n) or "").startswith(("fnmatch.", "re."))
+        ):
+            recognised_lines.add(id(n))
+    n_other = 0
+    for comp in walk_no_nested(fn.node):
+        conds = []
+        if isinstance(comp, (ast.ListComp, ast.GeneratorExp)):
+            for g in comp.generators:
+                if isinstance(g.iter, ast.Attribute) and g.iter.attr == "codemods":
+                    conds += g.ifs
+            if isinstance(comp.elt, ast.Call) and any("patterns" in unparse(g.iter) or "matchers" in unparse(g.iter) for g in comp.generators):
+                conds.append(comp.elt)
+        for cnd in conds:
+            calls = [c for c in ast.walk(cnd) if isinstance(c, ast.Call) and ".id" in unparse(c)]
+            for c in calls:
+                if id(c) in recognised_lines:
+                    continue
+                n_other += 1
+                rep.check("R-GLOB-ANCHORED", fn.qname, fn.loc(c), False, f"matcher:{unparse(c.func)[:30]}",
+                          f"codemod ids are matched against user patterns through `{unparse(c)[:50]}`, which is neither fnmatch nor an escaped "
+                          "regex applied with fullmatch: its treatment of `*` (prefix/infix/suffix, several stars) cannot be established")
+    if n_sites + n_other < 2:
         raise AnalysisError("match_codemods no longer contains recognisable pattern matching for include and exclude")
 
 
@@ -278,6 +303,33 @@ def rule_registry_order(ctx, rep):
               "registry is built by iterating " + ", ".join(f"`{unparse(src)[:50]}`" for _, src, _ in bad) + ": codemod order depends on the hash seed")
 
 
+def rule_sast_only_source(ctx, rep):
+    rep.rule(
+        "R-SAST-ONLY-SOURCE",
+        "run() derives match_codemods' sast_only argument only from the Sonar-issues and SARIF options (the inputs that make "
+        "tool-specific codemods the eligible set), and match_codemods uses it in exactly one eligibility test",
+        min_instances=2,
+    )
+    run = ctx.prog.func(RUN)
+    calls = [c for c in walk_no_nested(run.node) if isinstance(c, ast.Call) and last_attr(c.func) == "match_codemods"]
+    if not calls:
+        raise AnalysisError("run() no longer calls match_codemods")
+    for c in calls:
+        a = next((k.value for k in c.keywords if k.arg == "sast_only"), c.args[2] if len(c.args) > 2 else None)
+        a = ctx.resolver(run).expand(a) if a is not None else None
+        attrs = {n.attr for n in ast.walk(a) if isinstance(n, ast.Attribute)} if a is not None else set()
+        names = {n.id for n in ast.walk(a) if isinstance(n, ast.Name)} if a is not None else set()
+        ok = a is not None and attrs == {"sonar_issues_json", "sarif"} and names <= {"argv", "bool"}
+        rep.check("R-SAST-ONLY-SOURCE", run.qname, run.loc(c), ok, "sast_only-arg",
+                  f"sast_only is computed from `{unparse(a) if a is not None else 'nothing'}` rather than from argv.sonar_issues_json / argv.sarif: "
+                  "hotspot-only or DefectDojo-only inputs (or an unrecognised SARIF) flip the eligible set")
+    fn = ctx.prog.func(MATCH)
+    uses = [n for n in walk_no_nested(fn.node) if isinstance(n, ast.Name) and n.id == "sast_only" and isinstance(n.ctx, ast.Load)]
+    tests = [n for n in walk_no_nested(fn.node) if isinstance(n, ast.Compare) and "sast_only" in unparse(n) and "origin" in unparse(n)]
+    rep.check("R-SAST-ONLY-SOURCE", fn.qname, fn.loc(tests[0]) if tests else fn.loc(), len(tests) == 1 and len(uses) == 1, "eligibility-test",
+              "match_codemods no longer has exactly one eligibility test `sast_only xor origin == 'pixee'`")
+
+
 def check(ctx, rep):
     rep.explanation = (
         "match_codemods' returns are traced to their construction (id-keyed dict vs guarded list), its pattern matchers are "
@@ -289,4 +341,5 @@ def check(ctx, rep):
     rule_order_preserved(ctx, rep)
     rule_cli_exclusive(ctx, rep)
     rule_registry_order(ctx, rep)
+    rule_sast_only_source(ctx, rep)
     rep.not_covered += ["regex/fnmatch semantics over arbitrary pattern lists and registries", "sast_only eligibility beyond its presence in both branches"]
